@@ -14,7 +14,7 @@ def run(chk, replay=None):
     rng = random.Random(chk.seed)
     th = chk.tier == 'thorough'
     cases = (streams.corpus_lines() + streams.fixture_lines() + streams.crossclass_lines()[::2] + streams.long_value_lines() + streams.deep_lines()[::2] + streams.grammar_lines(rng, 1500 if th else 250, 0.2) + streams.anyjson_lines(rng, 1500 if th else 300)
-             + streams.wrapper_lines(rng, 2000 if th else 250) + streams.search_lines(rng, None if th else 300))
+             + streams.wrapper_lines(rng, 2000 if th else 250) + streams.search_lines(rng, None if th else 300) + streams.degenerate_lines())
     cfgs = streams.value_cfgs(rng, 10 if th else 4) + [Cfg(encrypt=True, key=streams.KEY, nums=True), Cfg(re='^(ssn|name)$', bools=True)]
     pair = streams.pairwise_cfgs()          # every pair of flag settings together at least once, on a part of the lines
     cfgs = cfgs + pair
